@@ -26,6 +26,16 @@ CHECKS = {
         "Trusted: Kconfig._invalidate_all() really discards every cache (the anchor mechanism). Bounds: <=14 options, <=18 operations.",
         "DESIGN.md 3/C03",
     ),
+    "C02": (
+        "exploration",
+        "round-trip property over generated histories: write -> load into a fresh instance -> write (Hypothesis)",
+        "Generated trees x histories (set/unset/reset, loads and merges of hand-written and tool-written files, optional rename file "
+        "with the deprecated block); the saved file is loaded into a fresh instance and values, bytes of a second save, the three report "
+        "areas and missing_syms are compared. Exploration: round trip is an executable oracle over an unbounded history space.",
+        "Trusted: only files written for the same tree are loaded; the default-mismatch clause is not applied after a merge of a "
+        "tool-written file from another state (stale defaults, outside the quantifier). Bounds: <=14 options, <=14 operations.",
+        "DESIGN.md 3/C02",
+    ),
 }
 
 NOT_YET = {}
